@@ -127,14 +127,12 @@ func RunBitsCover(p *Prog, r *Report, e *flowEngine, scope func(string) bool) {
 				}
 				// a decomposition with an explicit size (ToBinary(v, n)) has exactly n bits and bounds v by 2^n
 				sized := false
-				nData := 0
 				for _, a := range c.Call.Args {
-					if isVariableLike(a.Type()) || strings.Contains(a.Type().String(), "Element") {
-						nData++
-					} else if _, isSl := a.Type().Underlying().(*types.Slice); isSl {
-						if sl, ok := a.(*ssa.Slice); ok {
-							_ = sl
-							sized = true
+					if sl, ok := a.Type().Underlying().(*types.Slice); ok {
+						if b, ok := sl.Elem().Underlying().(*types.Basic); ok && b.Info()&types.IsInteger != 0 {
+							if k, isConst := a.(*ssa.Const); !isConst || !k.IsNil() {
+								sized = true
+							}
 						}
 					}
 				}
